@@ -1501,10 +1501,23 @@ func (e *c01Env) cfgRun(f []string) (obs []string) {
 
 		return e.cfgStatus(code)
 	case "C01.cprot":
-		code := e.call(e.s.handleSetProtection, http.MethodPost, "/control/protection",
-			map[string]any{"enabled": vutil.UnB(f[1]), "duration": 0})
+		// POST /control/protection through the real handler; duration absent ("-" or no field), 0 or positive (ms)
+		body := map[string]any{"enabled": vutil.UnB(f[1])}
+		if len(f) > 2 && f[2] != "-" {
+			body["duration"] = vutil.Atoi(f[2])
+		}
+		code := e.call(e.s.handleSetProtection, http.MethodPost, "/control/protection", body)
 
 		return e.cfgStatus(code)
+	case "C01.cprotlegacy":
+		// the legacy switch: POST /control/dns_config {"protection_enabled": b}
+		code := e.call(e.s.handleSetConfig, http.MethodPost, "/control/dns_config", map[string]any{"protection_enabled": vutil.UnB(f[1])})
+
+		return e.cfgStatus(code)
+	case "C01.cwait":
+		time.Sleep(time.Duration(vutil.Atoi(f[1])) * time.Millisecond)
+
+		return []string{"ok"}
 	case "C01.cq":
 		if e.stalled == nil {
 			// the rebuild loop gets to run before the query (unless a rebuild is stalled)
@@ -1671,23 +1684,44 @@ func c01ConfigGenFor(pfx string) func(r *rand.Rand, emit vutil.Emit) {
 					for _, i := range present() {
 						stored[i] = content[i]
 					}
-				case k < 17:
+				case k < 16:
 					i := known()
 					if r.IntN(3) > 0 {
 						content[i] = c01CfgContent(r)
 					}
 					focus = i
 					op("csrc", append([]string{strconv.Itoa(i)}, c01Hexes(content[i])...)...)
-				case k < 18:
+				case k < 17:
 					var rules []string
 					if r.IntN(3) > 0 {
 						rules = c01CfgContent(r)
 					}
 					op("crules", c01Hexes(rules)...)
-				case k < 19:
+				case k < 18:
 					op("cfilt", vutil.B(r.IntN(4) > 0))
 				default:
-					op("cprot", vutil.B(r.IntN(4) > 0))
+					// protection through the real handlers: on / off, a long pause (never runs out during
+					// the block), a short pause that is waited out at once, re-enabling (with the duration
+					// field absent or 0) while a pause is pending, a rejected request, the legacy switch
+					switch r.IntN(9) {
+					case 0, 1:
+						op("cprot", "1", vutil.Pick(r, []string{"-", "0"}))
+					case 2:
+						op("cprot", "0", vutil.Pick(r, []string{"-", "0"}))
+					case 3, 4:
+						op("cprot", "0", vutil.Pick(r, []string{"3600000", "7200000"}))
+					case 5:
+						op("cprot", "0", "15")
+						op("cwait", "60")
+					case 6:
+						op("cprot", "1", "5000") // 400
+					case 7:
+						op("cprotlegacy", vutil.B(r.IntN(2) == 0))
+					default:
+						// pause, then a second request before it runs out
+						op("cprot", "0", "3600000")
+						op("cprot", vutil.B(r.IntN(3) > 0), vutil.Pick(r, []string{"-", "0", "7200000", "1800000"}))
+					}
 				}
 
 				return focus
@@ -2059,6 +2093,38 @@ func c01GenCase(r *rand.Rand) (c *c01Case) {
 	}
 	c01GenExt(r, c)
 	c01CleanAnswer(r, c)
+	if c.urcode == dns.RcodeSuccess && r.IntN(4) == 0 {
+		// The upstream answer reveals a name / address that a block rule matches.  For an
+		// allow-listed query (or protection / filtering off) it must still arrive intact;
+		// for an unmatched query the replacement is C02's claim.
+		hdr := func(n string, t uint16) dns.RR_Header {
+			return dns.RR_Header{Name: n, Rrtype: t, Class: dns.ClassINET, Ttl: uint32(30 + r.IntN(300))}
+		}
+		t := vutil.Pick(r, []string{"tracker.net", "cdn.tracker.net", "ads.example.org", "_dmarc.tracker.net"})
+		ip := vutil.Pick(r, []string{"1.2.3.4", "10.0.0.5"})
+		var bad []dns.RR
+		var aim string
+		switch r.IntN(3) {
+		case 0:
+			bad = []dns.RR{&dns.CNAME{Hdr: hdr(c.qname, dns.TypeCNAME), Target: t + "."}}
+			aim = t
+		case 1:
+			bad = []dns.RR{&dns.A{Hdr: hdr(c.qname, dns.TypeA), A: net.IP(netip.MustParseAddr(ip).AsSlice())}}
+			aim = ip
+		default:
+			bad = []dns.RR{&dns.HTTPS{SVCB: dns.SVCB{Hdr: hdr(c.qname, dns.TypeHTTPS), Priority: 1, Target: ".",
+				Value: []dns.SVCBKeyValue{&dns.SVCBIPv4Hint{Hint: []net.IP{net.IP(netip.MustParseAddr(ip).AsSlice())}}}}}}
+			aim = ip
+		}
+		k := r.IntN(len(c.uans) + 1)
+		c.uans = append(c.uans[:k:k], append(bad, c.uans[k:]...)...)
+		rule := vutil.Pick(r, []string{"||" + aim + "^", "||" + aim + "^$important", "0.0.0.0 " + aim})
+		if len(c.block) > 0 && r.IntN(2) == 0 {
+			c.block[0].lines = append(c.block[0].lines, rule)
+		} else {
+			c.custom = append(c.custom, rule)
+		}
+	}
 	c01ExtraProbes(r, c, target)
 
 	return c
@@ -2113,12 +2179,10 @@ func c01GenExt(r *rand.Rand, c *c01Case) {
 	if r.IntN(5) == 0 {
 		c.sbOn, c.parOn = r.IntN(3) > 0, r.IntN(3) > 0
 		c.sbHost, c.parHost = vutil.Pick(r, c01BlockHosts), vutil.Pick(r, c01BlockHosts)
-		if c.pause == "past" {
-			// Not generated: an expired pause + a host-name block host deadlocks the server
-			// (recursive serverLock.RLock in genBlockedHost against the pending writer
-			// enableProtectionAfterPause) — kept as corpus/C01/finding-deadlock.txt.
-			c.sbHost, c.parHost = vutil.Pick(r, c01BlockHosts[:3]), vutil.Pick(r, c01BlockHosts[:3])
-		}
+		// An expired pause + a host-name block host used to deadlock the server (recursive
+		// serverLock.RLock in genBlockedHost against the pending writer
+		// enableProtectionAfterPause, C05 R4, repaired by c4d7229): generated since then;
+		// corpus/C01/finding-deadlock.txt is the regression case.
 		if c.hasClient {
 			c.csb, c.cpar = r.IntN(2) == 0, r.IntN(2) == 0
 		}
